@@ -158,6 +158,47 @@ def auto_cases(draw, tier):
     return c
 
 
+@st.composite
+def close_pair_cases(draw, tier):
+    """automatic radius with a pair of sites 0.35 - 1.3 A apart (split sites), possibly across a cell face: the radius is
+    limited by the separation (or the documented "too close" error is due) and atoms sit on both sides of the mid-plane"""
+    from hypothesis import assume
+
+    lat = draw(gen.lattices())
+    M = np.array(lat['matrix'])
+    Minv = np.linalg.inv(M)
+    dirs = gen.unit_dirs()
+    d = draw(st.one_of(st.floats(0.35, 1.3), st.sampled_from([0.5, 0.505, 0.512, 0.52, 0.8, 1.0, 1.005, 1.02])))
+    s0 = np.array([draw(st.sampled_from([0.0, 0.5, 0.999, 0.001, draw(st.floats(0, 1, exclude_max=True))])) for _ in range(3)])
+    s1 = (s0 @ M + np.array(dirs[draw(st.integers(0, 25))]) * d) @ Minv
+    sf = [s0, s1 - np.floor(s1)]
+    for _ in range(draw(st.integers(0, 2))):
+        sf.append(np.array([draw(st.floats(0, 1, exclude_max=True)) for _ in range(3)]))
+    sf = np.array(sf)
+    D = oracle.min_image_dist(sf, sf, M)
+    iu = np.triu_indices(len(sf), 1)
+    assume(abs(float(D[0, 1]) - d) < 1e-9 and float(np.sort(D[iu])[1] if len(D[iu]) > 1 else 9.0) > 1.6)  # the pair is the closest one by a margin
+    inter = gen.interstitials(M, sf, 1.2)
+    assume(len(inter) > 0)
+    T = draw(st.integers(3, 10 if tier == 'quick' else 24))
+    Nd = draw(st.integers(1, 2))
+    quiet = draw(st.integers(0, 4)) == 0  # only vibrations: the amplitude, not the separation, may set the radius
+    path = np.zeros((T, Nd, 3))
+    for a in range(Nd):
+        home = draw(st.integers(0, 1))
+        for t in range(T):
+            k = home if quiet else draw(st.sampled_from([0, 1, 0, 1, -1]))
+            if k < 0:
+                p = inter[draw(st.integers(0, len(inter) - 1))]
+            else:
+                rho = (draw(st.floats(0, 0.02)) if quiet else d * draw(st.sampled_from([0.0, 0.1, 0.3, 0.45, 0.49, 0.51, 0.55, 0.7])))
+                p = (sf[k] @ M + np.array(dirs[draw(st.integers(0, 25))]) * rho) @ Minv
+            path[t, a] = p - np.floor(p)
+    labs = [draw(st.sampled_from(['A', 'B'])) for _ in sf]
+    return {'lattice': lat, 'sites': {'frac': sf.tolist(), 'labels': labs}, 'radius': 0.0, 'inner_fraction': draw(st.sampled_from([1.0, 0.5, 0.9])),
+            'diff': path.tolist(), 'time_step': 1e-15, 'temperature': 300.0}
+
+
 # ----------------------------------------------------------------------------- complete enumeration of directions and radial classes
 SITE_POS = [(0.0, 0.0, 0.0), (0.0, 0.5, 0.5), (0.5, 0.0, 0.5), (0.5, 0.5, 0.0), (0.0, 0.0, 0.5), (0.0, 0.5, 0.0), (0.5, 0.0, 0.0), (0.999, 0.001, 0.5)]
 DIRS = [np.array(d, float) / np.linalg.norm(d) for d in __import__('itertools').product((-1, 0, 1), repeat=3) if any(d)]
@@ -213,6 +254,9 @@ SUBS = [
     Sub(name='automatic-radius', kind='hyp', run=run_auto, strategy=auto_cases,
         rule='radius=None: oracle recomputes min(2 x amplitude, separation/2 - 0.005), asserts disjoint spheres and the states at that radius; "too close" error accepted iff the separation implies it',
         n={'quick': 80, 'thorough': 1500}, shards={'quick': 4, 'thorough': 16}),
+    Sub(name='automatic-radius-close-pair', kind='hyp', run=run_auto, strategy=close_pair_cases,
+        rule='radius=None with a pair of sites 0.35-1.3 A apart (split sites; also across a cell face; 0-2 further sites) in all cells, atoms at 0-0.7 x the separation from either site or only vibrating: same clauses as automatic-radius (rule, disjoint spheres, states and inner states at that radius, the "too close" error iff implied)',
+        n={'quick': 60, 'thorough': 1500}, shards={'quick': 4, 'thorough': 16}),
     Sub(name='enum-directions', kind='enum', run=run_enum, size=enum_size, case_at=enum_case, exhaustive=True,
         rule='complete enumeration: 7 lattice families x 3 orientations x first site at cell corner / each face centre / each edge centre / next to a face (second site half a cell away) x radius float / per-label dict (labels A, A1) x coordinates wrapped / given in other periodic images; two atoms visit all 26 Cartesian directions x 6 radial classes (centre, 2e-3 A inside/outside the inner radius, 2e-3 A inside/outside the radius, 1.5 r) around their site; outer and inner states vs brute-force minimum image, direct and through the public pipeline',
         shards={'quick': 16, 'thorough': 16}),
